@@ -42,11 +42,20 @@ func symbolsOf(s string, into map[string]bool) {
 // smt renders the query. Declarations and axioms are filtered by relevance: an axiom is included
 // when every declared symbol it mentions is used by the path condition, the goal or an included axiom.
 func (o *Obligation) smt(seed int, withModel bool) string {
+	return o.smtOpt(seed, withModel, false)
+}
+
+// smtOpt: relaxed = without the quantified facts and axioms (a weaker set of assumptions: a model of it is only a
+// candidate input, to be confirmed by running the real code).
+func (o *Obligation) smtOpt(seed int, withModel bool, relaxed bool) string {
 	used := map[string]bool{}
 	seen := map[string]bool{}
 	var pcs []string
 	for _, p := range o.PC {
 		if seen[p] {
+			continue
+		}
+		if relaxed && (strings.Contains(p, "(forall ") || strings.Contains(p, "(exists ")) {
 			continue
 		}
 		seen[p] = true
@@ -62,6 +71,10 @@ func (o *Obligation) smt(seed int, withModel bool) string {
 	}
 	axs := make([]*ax, len(o.Axioms))
 	for i, a := range o.Axioms {
+		if relaxed && (strings.Contains(a, "(forall ") || strings.Contains(a, "(exists ")) {
+			axs[i] = &ax{text: a, syms: []string{"\x00never"}}
+			continue
+		}
 		m := map[string]bool{}
 		symbolsOf(a, m)
 		x := &ax{text: a}
@@ -129,7 +142,22 @@ func (o *Obligation) smt(seed int, withModel bool) string {
 		var ts []string
 		seenT := map[string]bool{}
 		for _, in := range o.Inputs {
-			if !seenT[in.Term] && !strings.Contains(in.Term, "!") && used[in.Term] {
+			if seenT[in.Term] || strings.Contains(in.Term, "!") {
+				continue
+			}
+			okT := used[in.Term]
+			if !okT && strings.HasPrefix(in.Term, "(") {
+				// compound term (a cell of the entry heap): every symbol in it must be part of the query
+				ss := map[string]bool{}
+				symbolsOf(in.Term, ss)
+				okT = true
+				for k := range ss {
+					if _, isDecl := declared[k]; isDecl && !used[k] {
+						okT = false
+					}
+				}
+			}
+			if okT {
 				seenT[in.Term] = true
 				ts = append(ts, in.Term)
 			}
@@ -441,10 +469,10 @@ func dischargeAll(obls []*Obligation, cfg SolverCfg) {
 			undecided = append(undecided, o)
 		}
 	}
-	if len(undecided) == 0 || len(undecided) > 24 {
+	if len(undecided) == 0 || len(undecided) > 12 {
 		return
 	}
-	sem2 := make(chan struct{}, 4)
+	sem2 := make(chan struct{}, 6)
 	for _, o := range undecided {
 		wg.Add(1)
 		sem2 <- struct{}{}
@@ -452,7 +480,7 @@ func dischargeAll(obls []*Obligation, cfg SolverCfg) {
 			defer wg.Done()
 			defer func() { <-sem2 }()
 			c2 := cfg
-			c2.TimeoutS = cfg.TimeoutS * 4
+			c2.TimeoutS = cfg.TimeoutS * 3
 			c2.Seed = cfg.Seed + 7
 			prev := o.TimeS
 			discharge(o, c2)
